@@ -254,6 +254,62 @@ func c143(c *an.Ctx, p *an.Prog) {
 		}
 		c.Check(len(bad) == 0 && n > 0, "C14.3", fnKey(fn)+"|IDKey-operands", p.Pos(fn.Pos()), "IDKey(pw, salt, Time, Memory, Threads, Length) — direct field loads, no unit conversion", strings.Join(uniqS(bad), "; "))
 	}
+	// the hasher holds exactly the configured parameters: the constructor copies *params and nothing edits the copy
+	if ctor := p.Func("/store", "NewArgon2IDHasher"); need(c, "C14.3", ctor, "store.NewArgon2IDHasher") {
+		var bad []string
+		n := 0
+		an.EnumPaths(ctor, nil, nil, func(s *an.PathState) {
+			ret := lastReturn(s)
+			if ret == nil || ret.Args[0].IsConst("nil") {
+				return
+			}
+			n++
+			h := ret.Args[0]
+			if h.Op != "alloc" {
+				bad = append(bad, "returned hasher is not the fresh object of this call")
+				return
+			}
+			whole := 0
+			for _, e := range s.Events {
+				if e.Kind != "store" {
+					continue
+				}
+				a := e.Args[0]
+				if a.Root() == nil || a.Root().K != h.K {
+					continue
+				}
+				if a.Op == "fieldaddr" && a.Aux == "Argon2IDParams" && a.Args[0].K == h.K {
+					whole++
+					if !(e.Args[1].Op == "load" && e.Args[1].Args[0].K == s.T(ctor.Params[0]).K) {
+						bad = append(bad, "the hasher's parameters are initialised from "+e.Args[1].K+", not from *params")
+					}
+					continue
+				}
+				bad = append(bad, "the constructor edits the copied parameter "+a.K+" (the KDF would run with values other than the configured ones)")
+			}
+			if whole != 1 {
+				bad = append(bad, fmt.Sprintf("%d whole-struct copies of the parameters", whole))
+			}
+		})
+		c.Check(len(bad) == 0 && n > 0, "C14.3", fnKey(ctor)+"|parameters-copied-unchanged", p.Pos(ctor.Pos()), "the hasher stores *params as given; no field is adjusted afterwards", strings.Join(uniqS(bad), "; "))
+		// and no other function writes the parameter fields of a hasher
+		var w []string
+		for _, fn := range p.RepoFns {
+			for _, b := range fn.Blocks {
+				for _, in := range b.Instrs {
+					if st, ok := in.(*ssa.Store); ok {
+						if fa, ok := st.Addr.(*ssa.FieldAddr); ok && isNamed(fa.X.Type(), storePkg, "Argon2IDParams") {
+							w = append(w, "Argon2IDParams."+fieldNameOf(fa)+" written in "+fnKey(fn)+" at "+p.InstrPos(in))
+						}
+						if fa, ok := st.Addr.(*ssa.FieldAddr); ok && isNamed(fa.X.Type(), "gopkg.in/spreadspace/scryptauth.v2", "Context") && fn.Name() != "NewScryptAuthHasher" {
+							w = append(w, "scrypt context field "+fieldNameOf(fa)+" written in "+fnKey(fn))
+						}
+					}
+				}
+			}
+		}
+		c.Check(len(w) == 0, "C14.3", "hasher-parameters|never-rewritten", "-", "no field of Argon2IDParams is assigned anywhere in the module; the scrypt context is only set up in its constructor", strings.Join(uniqS(w), "; "))
+	}
 	// YAML tags
 	tags := map[string]map[string]string{
 		"Argon2IDParams":   {"Time": "time", "Memory": "memory", "Threads": "threads", "Length": "length"},
